@@ -475,10 +475,10 @@ func builtinPrograms() []*Program {
 		Name:     "builtin/dotted_names",
 		Packages: []string{"billing.v1", "shop.v1"},
 		Files: map[string]string{
-			"shop/v1/order.j5s": j5s(append([]string{"package shop.v1", "", "object Order {", "  | An order placed by a customer.", "", "  field orderId key:uuid", "  field customer object:Customer", "}", ""}, svc("Order", "orderId")...)...),
+			"shop/v1/order.j5s":        j5s(append([]string{"package shop.v1", "", "object Order {", "  | An order placed by a customer.", "", "  field orderId key:uuid", "  field customer object:Customer", "}", ""}, svc("Order", "orderId")...)...),
 			"shop/v1/order.refund.j5s": j5s(append([]string{"package shop.v1", "", "object Refund {", "  | Money going back.", "", "  field refundId key:uuid", "  field order object:Order", "}", ""}, svc("Refund", "refundId")...)...),
-			"shop/v1/customer.j5s": j5s("package shop.v1", "", "object Customer {", "  field name string", "}"),
-			"billing/v1/invoice.j5s": j5s("package billing.v1", "import shop.v1", "", "object Invoice {", "  field order object:shop.v1.Order", "  field refund object:shop.v1.Refund", "}"),
+			"shop/v1/customer.j5s":     j5s("package shop.v1", "", "object Customer {", "  field name string", "}"),
+			"billing/v1/invoice.j5s":   j5s("package billing.v1", "import shop.v1", "", "object Invoice {", "  field order object:shop.v1.Order", "  field refund object:shop.v1.Refund", "}"),
 		},
 	})
 
